@@ -11,6 +11,8 @@ def run(ctx):
     tokenizer(ctx, n, ['tok.location', 'tok.consumed', 'tok.value', 'tok.garbage', 'tok.end'], f'full alphabet n={n}')
     read_input(ctx, ['read.counters', 'read.locations', 'read.only_objects_and_arrays'])
     files(ctx)
+    from ..scen_files import file_sources
+    file_sources(ctx)         # from_file hands over the unread file; the directory loop reads every entry and returns the first error
     go_chain(ctx, want=('go.inputs',), files_only=True)
     from ..scen_stages import stage_steps
     from ..scen_ctx import contexts
